@@ -1,37 +1,41 @@
 #!/usr/bin/env python3
-"""MANIFEST.setup_cmd: build everything the checks need from files on disk (offline).
-Every check re-does whatever of this is missing or stale, so this only front-loads the cost."""
-import glob, os, sys
+"""MANIFEST.setup_cmd: build everything the claimed checks need from files on disk (offline).
+Every check re-does whatever of this is missing or stale, so this only front-loads the cost.
+Only the properties claimed in MANIFEST.json are built (work in progress of other properties is ignored)."""
+import importlib, json, os, sys
 sys.path.insert(0, os.path.dirname(os.path.abspath(__file__)))
 import vlib
 
+
 def main():
     rc = 0
+    man = json.load(open(os.path.join(vlib.VERIF, "MANIFEST.json")))
+    pids = [c["property_id"] for c in man["checks"]]
     try:
         vlib.build_repo("plain")
     except vlib.Broken as b:
         print("setup: libnano build failed:", b.what, b.detail[-2000:]); rc = 1
-    import importlib
-    for f in sorted(glob.glob(os.path.join(vlib.VERIF, "tools", "props", "c*.py"))):
-        pid = os.path.basename(f)[:-3]
+    for pid in pids:
         try:
-            mod = importlib.import_module("props." + pid)
-            if hasattr(mod, "translate"):
-                mod.translate()
+            mod = importlib.import_module("props." + pid.lower())
         except Exception as ex:
-            print(f"setup: translate {pid}: {ex!r}")
-    try:
-        vlib.lake_build([])          # default targets: whole library + driver
-    except vlib.Broken as b:
-        print("setup: lake build failed:", b.detail[-3000:]); rc = 1
-    for f in sorted(glob.glob(os.path.join(vlib.VERIF, "tools", "props", "c*.py"))):
-        pid = os.path.basename(f)[:-3]
-        mod = importlib.import_module("props." + pid)
+            print(f"setup: cannot import props.{pid.lower()}: {ex!r}"); rc = 1
+            continue
         try:
             vlib.build_harness(mod.HARNESS, "plain", getattr(mod, "HARNESS_FLAGS", ""))
         except vlib.Broken as b:
             print(f"setup: harness {pid}: {b.what} {b.detail[-1500:]}"); rc = 1
+        if hasattr(mod, "translate"):
+            try:
+                mod.translate()
+            except Exception as ex:
+                print(f"setup: translate {pid}: {ex!r}"); rc = 1
+        try:
+            vlib.lake_build(["driver_" + pid.lower()] + list(mod.LEAN_MODULES), "lake-" + pid)
+        except vlib.Broken as b:
+            print(f"setup: lake build {pid} failed:", b.detail[-3000:]); rc = 1
     sys.exit(rc)
+
 
 if __name__ == "__main__":
     main()
